@@ -72,13 +72,18 @@ func runLocalFlood(in input) lib.Case {
 	if !waitUntil(func() bool { return S.Listening() && V.Listening() && C.Listening() }, 5*time.Second) {
 		return lib.Case{Discard: true}
 	}
-	if _, err := S.Send(V.ServerIdentity, &TMsg{ID: 0}); err != nil {
-		return lib.Case{Discard: true}
+	var err0 error
+	if !boundedDo(10*time.Second, func() { _, err0 = S.Send(V.ServerIdentity, &TMsg{ID: 0}) }) {
+		wedgedKinds["localflood"]++
+		return cutCase("localflood", "first Send to the live victim did not return", true, nil)
+	}
+	if err0 != nil {
+		return cutCase("localflood", "first Send to the live victim failed", false, err0.Error())
 	}
 	select {
 	case <-entered:
-	case <-time.After(5 * time.Second):
-		return lib.Case{Discard: true}
+	case <-time.After(10 * time.Second):
+		return cutCase("localflood", "first message did not reach the live victim's processor", false, nil)
 	}
 	// the flood: k-1 more messages; a Send that finds the queues full waits
 	var sent int32
@@ -96,10 +101,28 @@ func runLocalFlood(in input) lib.Case {
 	case <-floodDone:
 	case <-time.After(1500 * time.Millisecond):
 	}
-	// the forwarding goroutine of the victim-side connection moves the packets on its own time; there
-	// is no schedule point in local.go to wait on, so give it room to reach its resting state
-	// (all queues as full as they get) before the victim is stopped
-	time.Sleep(400 * time.Millisecond)
+	// wait until the victim-side connection is in its resting state: the forwarding goroutine has
+	// moved everything it can (outgoing queue full or incoming queue empty). Observed through the
+	// queue lengths of that connection; the state is reached on any implementation that forwards,
+	// so running into the deadline is itself reported below (the case is then evaluated as it is).
+	rest := func() bool {
+		l, ok := connListBounded(V, S.ServerIdentity.GetID())
+		if !ok || len(l) == 0 {
+			return false
+		}
+		in, out := network.VerifLocalQueues(l[0])
+		want := k - 1
+		if want > 2*network.LocalMaxBuffer+1 {
+			want = 2*network.LocalMaxBuffer + 1
+		}
+		switch {
+		case want <= network.LocalMaxBuffer:
+			return in == 0 && out == want
+		default:
+			return out == network.LocalMaxBuffer && in == want-network.LocalMaxBuffer-1
+		}
+	}
+	rested := waitUntil(rest, 10*time.Second)
 	absorbed := atomic.LoadInt32(&sent) + 1
 	// stop the victim; router.closedSet is reached when Stop has closed all its connections
 	VR := V
@@ -109,17 +132,17 @@ func runLocalFlood(in input) lib.Case {
 	})
 	stopped := make(chan struct{})
 	go func() { V.Stop(); close(stopped) }()
-	closedReached := g.WaitHit(2500 * time.Millisecond)
+	closedReached := g.WaitHit(6 * time.Second)
 	g.Release()
 	// while the victim's dispatcher is still busy: can the survivor go on?
-	postReturned := boundedDo(2*time.Second, func() { S.Send(V.ServerIdentity, &TMsg{ID: k + 1}) })
-	canaryOK := boundedDo(2*time.Second, func() { S.Send(C.ServerIdentity, &TMsg{ID: k + 2}) }) &&
-		waitUntil(func() bool { return atomic.LoadInt32(&canary) == 1 }, 3*time.Second)
+	postReturned := boundedDo(6*time.Second, func() { S.Send(V.ServerIdentity, &TMsg{ID: k + 1}) })
+	canaryOK := boundedDo(6*time.Second, func() { S.Send(C.ServerIdentity, &TMsg{ID: k + 2}) }) &&
+		waitUntil(func() bool { return atomic.LoadInt32(&canary) == 1 }, 6*time.Second)
 	sendsReturned := false
 	select {
 	case <-floodDone:
 		sendsReturned = true
-	case <-time.After(1 * time.Second):
+	case <-time.After(4 * time.Second):
 	}
 	close(gate) // the busy dispatcher returns
 	stopReturned := false
@@ -127,7 +150,7 @@ func runLocalFlood(in input) lib.Case {
 		select {
 		case <-stopped:
 			stopReturned = true
-		case <-time.After(3 * time.Second):
+		case <-time.After(8 * time.Second):
 		}
 	}
 	clean := closedReached && stopReturned && sendsReturned && postReturned && canaryOK
@@ -150,6 +173,6 @@ func runLocalFlood(in input) lib.Case {
 		lib.Bool(postReturned), lib.Bool(canaryOK))
 	return lib.Case{Coq: coq, Class: cl, Nontrivial: k >= 202,
 		Obs: map[string]interface{}{"messages_sent_before_stop": k, "sends_that_returned_before_stop": absorbed,
-			"stop_closed_its_connections": closedReached, "stop_returned": stopReturned, "all_sends_returned": sendsReturned,
+			"victim_side_queues_at_rest": rested, "stop_closed_its_connections": closedReached, "stop_returned": stopReturned, "all_sends_returned": sendsReturned,
 			"send_to_stopped_peer_returned": postReturned, "send_to_third_router_delivered": canaryOK}}
 }
